@@ -6,7 +6,7 @@
 //! (c) logged with arguments and result.
 use crate::events::{a8, emit};
 use crate::watch;
-use injectorpp::interface::injector::__verif_lock_state as lock_state;
+use crate::hook::lock_state;
 use libc::{c_char, c_int, c_void, off_t, size_t};
 use serde_json::json;
 use std::cell::Cell;
